@@ -321,7 +321,7 @@ fn small(ncfg: NodeCfg, parents: &[usize], gt_mask: u32, dt_mask: u32) -> HistSp
             miner: 1,
             txs: vec![],
             bad_tx: None,
-            corrupt: None,
+            corrupt: None, back: None,
         })
         .collect();
     HistSpec {
@@ -350,7 +350,7 @@ pub fn arb_blockspec_c05() -> impl Strategy<Value = BlockSpec> {
             miner,
             txs,
             bad_tx: None,
-            corrupt: None,
+            corrupt: None, back: None,
         })
 }
 
